@@ -15,10 +15,17 @@
         ([whole_state_tendencies_covariant]);
     (4) [whole_state_HF_HG]: these are, coefficient by coefficient, the hypotheses HF and HG of
         [step_covariant] (Thm/Scaling.v) with tau * kr = 1;
-    (5) [whole_state_step_covariant_partial]: the explicit update u + dt (F u + G u) of the whole
-        state commutes with the change of scale; NOT reached: the implicit solve
-        (implicit_inverse_full) and hence the IMEX integrators on the whole state - see the
-        comment at (4)/(5) below for exactly what is missing.
+    (5) [whole_state_step_covariant_partial]: the explicit update u + dt (F u + G u) (round 1);
+    (6) [whole_state_inverse_covariant]: implicit_inverse_full (method 'split') of the rescaled state
+        with step tau * eta is the rescaled result, given that the inverse tables are a right inverse
+        (first scale) and a left inverse (second scale) of the assembled implicit matrices;
+    (7) [explicit_terms_full_ext] / [implicit_terms_full_ext] / [implicit_inverse_full_ext]: the model
+        functions read the state on the index range only; [StOps]: the in-range part of State as a
+        vector space whose laws are Leibniz equalities (normal forms + functional extensionality);
+    (8) [whole_state_step_covariant]: backward-forward Euler, Crank-Nicolson RK2, the low-storage
+        schemes, every IMEX tableau and leapfrog applied to explicit_terms_full / implicit_terms_full /
+        implicit_inverse_full commute with the change of scale; [whole_state_trajectory_covariant]:
+        any number of filtered steps.  Tracers are not covered (dropped by the state space).
 
     Change of scale, in the convention of [scale_ncol] / [scale_cfg] (Model/Scaling.v):
     multipliers ku (velocity), kr (rates), kT (temperature), kg (inverse length),
@@ -163,6 +170,156 @@ Section OpScal.
     T (fun v => x v + y v) b = T x b + T y b.
   Proof. rewrite (lin_comb T HT (fun v => x v + y v) x y 1) by (intros; ring). ring. Qed.
 End OpScal.
+
+(** ** the executable whole-state functions read their argument on the index range only *)
+Section StateExt.
+  Context {F : Type} {o : Ops F} {Fc : FieldC o}.
+  Add Field FFsf3 : (field_c : FieldTh o).
+
+  Definition agree (K R L : nat) (s1 s2 : @State F) : Prop :=
+    (forall k a l, (k < K)%nat -> (a < R)%nat -> (l < L)%nat ->
+       s_vort s1 k a l = s_vort s2 k a l /\ s_div s1 k a l = s_div s2 k a l /\ s_temp s1 k a l = s_temp s2 k a l) /\
+    (forall a l, (a < R)%nat -> (l < L)%nat -> s_lnps s1 a l = s_lnps s2 a l).
+
+  Lemma D1_ext_range L C (a b x y : nat -> nat -> F) i l :
+    (l < C)%nat -> (forall l', (l' < C)%nat -> x i l' = y i l') -> D1 L C a b x i l = D1 L C a b y i l.
+  Proof.
+    intros Hl H. unfold D1, shift_cols.
+    rewrite (shift1_ext C d1_om (fun l0 => d1_wm (lit (laxis L l0)) (a i l0) * x i l0)
+               (fun l0 => d1_wm (lit (laxis L l0)) (a i l0) * y i l0)) by (try assumption; intros; now rewrite H).
+    rewrite (shift1_ext C d1_op (fun l0 => d1_wp (lit (laxis L l0)) (b i l0) * x i l0)
+               (fun l0 => d1_wp (lit (laxis L l0)) (b i l0) * y i l0)) by (try assumption; intros; now rewrite H).
+    reflexivity.
+  Qed.
+
+  Variable g : @HGrid F.
+  Notation R := (hR g).
+  Notation L := (hL g).
+
+  Lemma uvm_ext (vo dv vo' dv' : nat -> nat -> F) a l :
+    (a < R)%nat -> (l < L)%nat ->
+    (forall a l, (a < R)%nat -> (l < L)%nat -> vo a l = vo' a l) ->
+    (forall a l, (a < R)%nat -> (l < L)%nat -> dv a l = dv' a l) ->
+    fst (uvm g vo dv) a l = fst (uvm g vo' dv') a l /\ snd (uvm g vo dv) a l = snd (uvm g vo' dv') a l.
+  Proof.
+    intros Ha Hl Hv Hd.
+    assert (E : forall x x' : nat -> nat -> F, (forall a l, (a < R)%nat -> (l < L)%nat -> x a l = x' a l) ->
+                dlon_ref R (inverse_laplacian L (hr g) x) a l = dlon_ref R (inverse_laplacian L (hr g) x') a l /\
+                D1 L L (ha g) (hb g) (inverse_laplacian L (hr g) x) a l = D1 L L (ha g) (hb g) (inverse_laplacian L (hr g) x') a l).
+    { intros x x' H. split.
+      - apply (d_dlon_ext false R); [|exact Ha]. intros i' Hi. unfold inverse_laplacian. now rewrite H.
+      - apply D1_ext_range; [exact Hl|]. intros l' Hl'. unfold inverse_laplacian. now rewrite H. }
+    destruct (E vo vo' Hv) as [E1 E2]. destruct (E dv dv' Hd) as [E3 E4].
+    split.
+    - change (fst (uvm g vo dv) a l) with
+        (dlon_ref R (inverse_laplacian L (hr g) dv) a l / hr g + - (D1 L L (ha g) (hb g) (inverse_laplacian L (hr g) vo) a l / hr g)).
+      rewrite E3, E2. reflexivity.
+    - change (snd (uvm g vo dv) a l) with
+        (D1 L L (ha g) (hb g) (inverse_laplacian L (hr g) dv) a l / hr g + dlon_ref R (inverse_laplacian L (hr g) vo) a l / hr g).
+      rewrite E4, E1. reflexivity.
+  Qed.
+
+  Lemma gradm_ext (x x' : nat -> nat -> F) a l :
+    (a < R)%nat -> (l < L)%nat -> (forall a l, (a < R)%nat -> (l < L)%nat -> x a l = x' a l) ->
+    fst (gradm g x) a l = fst (gradm g x') a l /\ snd (gradm g x) a l = snd (gradm g x') a l.
+  Proof.
+    intros Ha Hl H. unfold gradm, cos_lat_grad, clip_if. cbn [fst snd]. split.
+    - rewrite (d_dlon_ext false R x x' a l) by (try assumption; intros; now apply H). reflexivity.
+    - rewrite (D1_ext_range L L (ha g) (hb g) x x' a l) by (try assumption; intros; now apply H). reflexivity.
+  Qed.
+
+  Lemma to_nodal3_ext K (x y : nat -> nat -> nat -> F) k i j :
+    (forall k a l, (k < K)%nat -> (a < R)%nat -> (l < L)%nat -> x k a l = y k a l) ->
+    to_nodal3 g K x k i j = to_nodal3 g K y k i j.
+  Proof.
+    intros H. unfold to_nodal3. rewrite !memo3_spec.
+    destruct (Nat.ltb_spec k K) as [Hk|Hk]; cbn [andb]; [|reflexivity].
+    destruct (Nat.ltb i (hI g)); cbn [andb]; [|reflexivity].
+    destruct (Nat.ltb_spec j (hJ g)) as [Hj|Hj]; [|reflexivity].
+    unfold to_nodal. apply synth_ext; [exact Hj|]. intros; now apply H.
+  Qed.
+
+  Lemma nodal2_ext (x y : nat -> nat -> F) i j :
+    (forall a l, (a < R)%nat -> (l < L)%nat -> x a l = y a l) ->
+    sh_memo2 (hI g) (hJ g) (to_nodal g x) i j = sh_memo2 (hI g) (hJ g) (to_nodal g y) i j.
+  Proof.
+    intros H. rewrite !sh_memo2_spec.
+    destruct (Nat.ltb i (hI g)); cbn [andb]; [|reflexivity].
+    destruct (Nat.ltb_spec j (hJ g)) as [Hj|Hj]; [|reflexivity].
+    unfold to_nodal. apply synth_ext; [exact Hj|]. intros; now apply H.
+  Qed.
+
+  Lemma diag_ext K (s1 s2 : @State F) :
+    agree K R L s1 s2 -> X_of g (diagnostic_state g K s1) = X_of g (diagnostic_state g K s2).
+  Proof.
+    intros [A3 A2]. apply functional_extensionality. intros [i j].
+    unfold X_of, diagnostic_state.
+    cbn [fst snd d_u d_v d_vort d_div d_temp d_gx d_gy].
+    f_equal.
+    - apply functional_extensionality; intro k. apply to_nodal3_ext. intros k0 a l Hk Ha Hl.
+      apply uvm_ext; try assumption; intros a0 l0 Ha0 Hl0; now apply A3.
+    - apply functional_extensionality; intro k. apply to_nodal3_ext. intros k0 a l Hk Ha Hl.
+      apply uvm_ext; try assumption; intros a0 l0 Ha0 Hl0; now apply A3.
+    - apply functional_extensionality; intro k. apply to_nodal3_ext. intros; now apply A3.
+    - apply functional_extensionality; intro k. apply to_nodal3_ext. intros; now apply A3.
+    - apply functional_extensionality; intro k. apply to_nodal3_ext. intros; now apply A3.
+    - apply nodal2_ext. intros a l Ha Hl. now apply gradm_ext.
+    - apply nodal2_ext. intros a l Ha Hl. now apply gradm_ext.
+  Qed.
+
+  Variable c : @PEcfg F.
+
+  Theorem explicit_terms_full_ext grav orog (s1 s2 : @State F) k a l :
+    agree (cK c) R L s1 s2 -> (k < cK c)%nat -> (a < R)%nat -> (l < L)%nat ->
+    let E1 := explicit_terms_full g c grav orog s1 in let E2 := explicit_terms_full g c grav orog s2 in
+    s_vort E1 k a l = s_vort E2 k a l /\ s_div E1 k a l = s_div E2 k a l /\
+    s_temp E1 k a l = s_temp E2 k a l /\ s_lnps E1 a l = s_lnps E2 a l.
+  Proof.
+    intros Hag Hk Ha Hl.
+    destruct (explicit_terms_full_is_assembly g c grav orog s1 k a l Hk Ha Hl) as (V & D & T & P).
+    destruct (explicit_terms_full_is_assembly g c grav orog s2 k a l Hk Ha Hl) as (V' & D' & T' & P').
+    cbv zeta in *. rewrite V, D, T, P, V', D', T', P', (diag_ext (cK c) s1 s2 Hag). repeat split.
+  Qed.
+
+  Lemma col_of_agree (s1 s2 : @State F) a l :
+    agree (cK c) R L s1 s2 -> (a < R)%nat -> (l < L)%nat -> col_eq (cK c) (col_of s1 a l) (col_of s2 a l).
+  Proof.
+    intros [A3 A2] Ha Hl. repeat split; cbn [col_of c_div c_temp c_lnps]; intros; try (now apply A3). now apply A2.
+  Qed.
+
+  Theorem implicit_terms_full_ext (s1 s2 : @State F) a l :
+    agree (cK c) R L s1 s2 -> (a < R)%nat -> (l < L)%nat ->
+    col_eq (cK c) (col_of (implicit_terms_full g c s1) a l) (col_of (implicit_terms_full g c s2) a l).
+  Proof.
+    intros Hag Ha Hl.
+    eapply col_eq_trans; [apply implicit_terms_full_column|].
+    eapply col_eq_trans; [apply implicit_terms_col_ext; apply (col_of_agree s1 s2 a l Hag Ha Hl)|].
+    apply col_eq_sym. apply implicit_terms_full_column.
+  Qed.
+
+  Lemma inverse_split_ext (X : @Mat F) eta lm (y1 y2 : @Col F) :
+    col_eq (cK c) y1 y2 ->
+    col_eq (cK c) (inverse_split (fun _ _ => X) c eta lm y1) (inverse_split (fun _ _ => X) c eta lm y2).
+  Proof.
+    intros H.
+    eapply col_eq_trans; [apply split_eq_stacked|].
+    eapply col_eq_trans; [|apply col_eq_sym; apply split_eq_stacked].
+    unfold inverse_stacked, unstack. cbv zeta.
+    repeat split; cbn [c_div c_temp c_lnps]; intros; apply matvec_ext; intros; now apply stack_ext.
+  Qed.
+
+  Theorem implicit_inverse_full_ext eta invt (s1 s2 : @State F) a l :
+    agree (cK c) R L s1 s2 -> (a < R)%nat -> (l < L)%nat ->
+    col_eq (cK c) (col_of (implicit_inverse_full g c eta invt s1) a l) (col_of (implicit_inverse_full g c eta invt s2) a l).
+  Proof.
+    intros Hag Ha Hl.
+    pose proof (inverse_split_ext (invt l) eta (Deriv.lap_eig L (hr g) l) _ _ (col_of_agree s1 s2 a l Hag Ha Hl)) as (A & B & C).
+    repeat split; cbn [col_of implicit_inverse_full s_div s_temp s_lnps c_div c_temp c_lnps]; intros.
+    - now apply A.
+    - now apply B.
+    - exact C.
+  Qed.
+End StateExt.
 
 Section WholeState.
   Context {F : Type} {o : Ops F} {Fc : FieldC o}.
@@ -469,16 +626,11 @@ Section WholeState.
       [whole_state_tendencies_covariant] IS HF and HG coefficient by coefficient
       ([whole_state_HF_HG]), and the explicit (forward) update u + dt (F u + G u) commutes with the
       change of scale ([whole_state_step_covariant_partial]).
-      MISSING for the full [whole_state_step_covariant] over the integrators of Model/Integrators.v:
-      (i) HGinv for [implicit_inverse_full] (method 'split'): Thm/PrimEqFull.v has the LEFT resolvent
-          identity only; the covariance argument ([resolvent_covariant_from_terms]) also needs the RIGHT
-          resolvent of [inverse_split] at the first scale, proved so far only for [inverse_stacked]
-          (Thm/ScalingColumn.v [column_resolvent_covariant], which covers every integrator on one
-          coefficient column with abstract explicit terms);
-      (ii) a [VOps] structure on [State] whose laws hold as Leibniz equalities (tracer lists, entries
-          outside the index range), so that the in-range pointwise statements below can be fed to
-          [step_covariant];
-      (iii) the tracer fields of explicit_terms_full (dimensionless, tendency * kr). *)
+      Round 2: HGinv is proved below ([whole_state_inverse_covariant], section (6)), the in-range part
+      of [State] is made a vector space with Leibniz laws (section (7)), and
+      [whole_state_step_covariant] / [whole_state_trajectory_covariant] (section (8)) instantiate the
+      step theorems of Thm/Scaling.v for every integrator.  Still missing: the tracer fields
+      (dimensionless, tendency * kr; passive in the dry equations - the state space drops them). *)
   Variable tau : F.
   Hypothesis H_time : tau * kr = 1.
 
@@ -538,4 +690,282 @@ Section WholeState.
     - transitivity (kT * s_temp s k a l + (tau * kr) * dt * (kT * (et + gt))); [ring | rewrite H_time; ring].
     - transitivity (s_lnps s a l + shift * e00 a l + (tau * kr) * dt * (ep + gp)); [ring | rewrite H_time; ring].
   Qed.
+  (** *** (6) the implicit solve.  [invt l] / [invt' l] are the tables np.linalg.inv(implicit_matrix)[l]
+      under the two scales; the first has to be a RIGHT inverse (M X = I), the second a LEFT inverse
+      (X' M' = I) - for square matrices both say "np.linalg.inv worked" (table obligation, checked
+      two-sided by the plugin). *)
+  Lemma feqb_sound_of_iff : forall x y : F, feqb x y = true -> x = y.
+  Proof. intros x y H. now apply feqb_iff. Qed.
+  Hypothesis th0_nz : thickness (cb c) 0%nat <> 0.
+  Hypothesis thK_nz : thickness (cb c) (cK c - 1)%nat <> 0.
+  Notation nn := (2 * cK c + 1)%nat.
+
+  Lemma column_right_resolvent_split (eta : F) (X : @Mat F) (lm : F) (yc : @Col F) :
+    is_left_inverse nn (implicit_matrix c eta lm) X ->
+    col_eq (cK c) (col_minus_scaled (inverse_split (fun _ _ => X) c eta lm yc) eta
+                     (implicit_terms false c lm (inverse_split (fun _ _ => X) c eta lm yc))) yc.
+  Proof.
+    intros Hr. set (zc := inverse_split (fun _ _ => X) c eta lm yc).
+    apply stack_inj. intros h Hh.
+    rewrite <- matrix_is_I_minus_eta_L by exact Hh.
+    rewrite (matvec_ext nn _ (stack (cK c) zc) (matvec nn X (stack (cK c) yc))).
+    2:{ intros j Hj.
+        rewrite (stack_ext (cK c) zc (inverse_stacked (fun _ _ => X) c eta lm yc) j
+                   (split_eq_stacked (fun _ _ => X) c eta lm yc) Hj).
+        unfold inverse_stacked. cbv zeta. now apply stack_unstack. }
+    rewrite <- matvec_matmul.
+    rewrite (matvec_ext_mat nn _ eye) by (intros j Hj; now apply Hr).
+    now apply matvec_eye.
+  Qed.
+
+  Theorem whole_state_inverse_covariant (eta : F) (invt invt' : nat -> @Mat F) (y : @State F) k a l :
+    is_left_inverse nn (implicit_matrix c eta (Deriv.lap_eig (hL g) (hr g) l)) (invt l) ->
+    is_left_inverse nn (invt' l) (implicit_matrix c' (tau * eta) (Deriv.lap_eig (hL g') (hr g') l)) ->
+    let Z := implicit_inverse_full g c eta invt y in
+    let Z' := implicit_inverse_full g' c' (tau * eta) invt' (Sst y) in
+    col_eq (cK c) (col_of Z' a l) (col_of (Sst Z) a l) /\ s_vort Z' k a l = s_vort (Sst Z) k a l.
+  Proof.
+    intros Hr Hl Z Z'. split; [|reflexivity].
+    set (lm := Deriv.lap_eig (hL g) (hr g) l) in *.
+    set (lm' := Deriv.lap_eig (hL g') (hr g') l) in *.
+    set (yc := col_of y a l).
+    set (zc := inverse_split (fun _ _ => invt l) c eta lm yc).
+    destruct (column_right_resolvent_split eta (invt l) lm yc Hr) as (Rd & Rt & Rp).
+    fold zc in Rd, Rt, Rp. cbn [col_minus_scaled c_div c_temp c_lnps] in Rd, Rt, Rp.
+    pose proof (fun k0 => whole_state_implicit_covariant Z k0 a l) as IC. cbv zeta in IC.
+    assert (Ed : forall k0, s_div (implicit_terms_full g c Z) k0 a l = c_div (implicit_terms false c lm zc) k0)
+      by (intros; reflexivity).
+    assert (Et : forall k0, s_temp (implicit_terms_full g c Z) k0 a l = c_temp (implicit_terms false c lm zc) k0)
+      by (intros; reflexivity).
+    assert (Ep : s_lnps (implicit_terms_full g c Z) a l = c_lnps (implicit_terms false c lm zc))
+      by reflexivity.
+    eapply col_eq_trans.
+    { instantiate (1 := inverse_split (fun _ _ => invt' l) c' (tau * eta) lm' (col_of (Sst y) a l)). repeat split. }
+    apply (split_resolvent_gen feqb_sound_of_iff (fun _ _ => invt' l) c' (tau * eta) lm' (col_of (Sst Z) a l)
+             (col_of (Sst y) a l) false Hl th0_nz thK_nz).
+    destruct (implicit_terms_full_column g' c' (Sst Z) a l) as (Id & It & Ip).
+    fold lm' in Id, It, Ip. cbn [scale_cfg cK] in Id, It.
+    repeat split; cbn [col_minus_scaled c_div c_temp c_lnps scale_cfg cK].
+    - intros k0 Hk0. rewrite <- (Id k0 Hk0). cbn [col_of c_div].
+      rewrite (proj1 (proj2 (IC k0))), Ed. cbn [scale_state s_div].
+      change (s_div y k0 a l) with (c_div yc k0). change (s_div Z k0 a l) with (c_div zc k0).
+      rewrite <- (Rd k0 Hk0).
+      set (p := c_div zc k0). set (q := c_div (implicit_terms false c lm zc) k0).
+      transitivity (kr * p - (tau * kr) * eta * (kr * q)); [rewrite H_time; ring | ring].
+    - intros k0 Hk0. rewrite <- (It k0 Hk0). cbn [col_of c_temp].
+      rewrite (proj1 (proj2 (proj2 (IC k0)))), Et. cbn [scale_state s_temp].
+      change (s_temp y k0 a l) with (c_temp yc k0). change (s_temp Z k0 a l) with (c_temp zc k0).
+      rewrite <- (Rt k0 Hk0).
+      set (p := c_temp zc k0). set (q := c_temp (implicit_terms false c lm zc) k0).
+      transitivity (kT * p - (tau * kr) * eta * (kT * q)); [rewrite H_time; ring | ring].
+    - rewrite <- Ip. cbn [col_of c_lnps].
+      rewrite (proj2 (proj2 (proj2 (IC 0%nat)))), Ep. cbn [scale_state s_lnps].
+      change (s_lnps y a l) with (c_lnps yc). change (s_lnps Z a l) with (c_lnps zc).
+      rewrite <- Rp.
+      set (p := c_lnps zc). set (q := c_lnps (implicit_terms false c lm zc)).
+      transitivity (p + shift * e00 a l - (tau * kr) * eta * q); [rewrite H_time; ring | ring].
+  Qed.
+  (** *** (7) the in-range part of [State] as a vector space with Leibniz laws: every operation
+      returns the normal form [mk4] (entries outside the index range forced to 0, tracer list dropped -
+      tracers are passive in the dry equations), so that in-range pointwise equality IS equality
+      (functional extensionality).  The executable model functions are composed with [norm] on the
+      output side only; on the input side they are applied to the states as they are, and
+      [explicit_terms_full_ext] etc. show that they only read the index range. *)
+  Definition inr3 (k a l : nat) : bool := (Nat.ltb k (cK c) && Nat.ltb a (hR g) && Nat.ltb l (hL g))%bool.
+  Definition inr2 (a l : nat) : bool := (Nat.ltb a (hR g) && Nat.ltb l (hL g))%bool.
+  Definition cl3 (x : nat -> nat -> nat -> F) : nat -> nat -> nat -> F := fun k a l => if inr3 k a l then x k a l else 0.
+  Definition cl2 (x : nat -> nat -> F) : nat -> nat -> F := fun a l => if inr2 a l then x a l else 0.
+  Definition mk4 (v d t : nat -> nat -> nat -> F) (p : nat -> nat -> F) : @State F := mkState (cl3 v) (cl3 d) (cl3 t) (cl2 p) [].
+  Definition norm (s : @State F) : @State F := mk4 (s_vort s) (s_div s) (s_temp s) (s_lnps s).
+  Definition StOps : VOps F (@State F) :=
+    mkVOps F (@State F) (mk4 zero3 zero3 zero3 (fun _ _ => 0))
+      (fun x y => mk4 (fun k a l => s_vort x k a l + s_vort y k a l) (fun k a l => s_div x k a l + s_div y k a l)
+                      (fun k a l => s_temp x k a l + s_temp y k a l) (fun a l => s_lnps x a l + s_lnps y a l))
+      (fun t x => mk4 (fun k a l => t * s_vort x k a l) (fun k a l => t * s_div x k a l)
+                      (fun k a l => t * s_temp x k a l) (fun a l => t * s_lnps x a l)).
+  Definition Lst (u : @State F) : @State F :=
+    mk4 (fun k a l => kr * s_vort u k a l) (fun k a l => kr * s_div u k a l) (fun k a l => kT * s_temp u k a l) (s_lnps u).
+  Definition c0st : @State F := mk4 zero3 zero3 zero3 (fun a l => shift * e00 a l).
+
+  Lemma inr3_true k a l : (k < cK c)%nat -> (a < hR g)%nat -> (l < hL g)%nat -> inr3 k a l = true.
+  Proof. intros Hk Ha Hl. unfold inr3. apply Nat.ltb_lt in Hk, Ha, Hl. now rewrite Hk, Ha, Hl. Qed.
+  Lemma inr3_elim k a l : inr3 k a l = true -> (k < cK c)%nat /\ (a < hR g)%nat /\ (l < hL g)%nat.
+  Proof.
+    unfold inr3. intros H. apply andb_prop in H. destruct H as [H Hl]. apply andb_prop in H. destruct H as [Hk Ha].
+    apply Nat.ltb_lt in Hk, Ha, Hl. auto.
+  Qed.
+  Lemma inr2_true a l : (a < hR g)%nat -> (l < hL g)%nat -> inr2 a l = true.
+  Proof. intros Ha Hl. unfold inr2. apply Nat.ltb_lt in Ha, Hl. now rewrite Ha, Hl. Qed.
+  Lemma inr2_elim a l : inr2 a l = true -> (a < hR g)%nat /\ (l < hL g)%nat.
+  Proof. unfold inr2. intros H. apply andb_prop in H. destruct H as [Ha Hl]. apply Nat.ltb_lt in Ha, Hl. auto. Qed.
+
+  Lemma mk4_ext v d t p v' d' t' p' :
+    (forall k a l, inr3 k a l = true -> v k a l = v' k a l) ->
+    (forall k a l, inr3 k a l = true -> d k a l = d' k a l) ->
+    (forall k a l, inr3 k a l = true -> t k a l = t' k a l) ->
+    (forall a l, inr2 a l = true -> p a l = p' a l) ->
+    mk4 v d t p = mk4 v' d' t' p'.
+  Proof.
+    intros Hv Hd Ht Hp. unfold mk4. f_equal.
+    - do 3 (apply functional_extensionality; intro). unfold cl3. destruct (inr3 x x0 x1) eqn:E; auto.
+    - do 3 (apply functional_extensionality; intro). unfold cl3. destruct (inr3 x x0 x1) eqn:E; auto.
+    - do 3 (apply functional_extensionality; intro). unfold cl3. destruct (inr3 x x0 x1) eqn:E; auto.
+    - do 2 (apply functional_extensionality; intro). unfold cl2. destruct (inr2 x x0) eqn:E; auto.
+  Qed.
+
+  Ltac st_tac :=
+    apply mk4_ext; intros;
+    cbn [vadd vscal vzero StOps Lst c0st mk4 norm s_vort s_div s_temp s_lnps]; unfold cl3, cl2, zero3;
+    repeat match goal with HH : _ = true |- _ => rewrite ?HH; clear HH end; try ring.
+
+  Notation vaddS := (@vadd F (@State F) StOps).
+  Notation vscalS := (@vscal F (@State F) StOps).
+  Notation vzeroS := (@vzero F (@State F) StOps).
+
+  Lemma st_vadd_assoc (u v w : @State F) : vaddS u (vaddS v w) = vaddS (vaddS u v) w.
+  Proof. cbn [vadd StOps]. st_tac. Qed.
+  Lemma st_vadd_comm (u v : @State F) : vaddS u v = vaddS v u.
+  Proof. cbn [vadd StOps]. st_tac. Qed.
+  Lemma st_vscal_add (t : F) (u v : @State F) : vscalS t (vaddS u v) = vaddS (vscalS t u) (vscalS t v).
+  Proof. cbn [vadd vscal StOps]. st_tac. Qed.
+  Lemma st_vscal_mul (s t : F) (u : @State F) : vscalS s (vscalS t u) = vscalS (s * t) u.
+  Proof. cbn [vadd vscal StOps]. st_tac. Qed.
+  Lemma st_vscal_zero (t : F) : vscalS t vzeroS = vzeroS.
+  Proof. cbn [vzero vscal StOps]. st_tac. Qed.
+  Lemma Lst_add u v : Lst (vaddS u v) = vaddS (Lst u) (Lst v).
+  Proof. cbn [vadd StOps]. unfold Lst at 1. st_tac. Qed.
+  Lemma Lst_scal t u : Lst (vscalS t u) = vscalS t (Lst u).
+  Proof. cbn [vscal StOps]. unfold Lst at 1. st_tac. Qed.
+  Lemma Lst_zero : Lst vzeroS = vzeroS.
+  Proof. cbn [vzero StOps]. unfold Lst at 1. st_tac. Qed.
+  Lemma tau_nz_st : tau <> 0.
+  Proof. intro E. apply (@one_nz F o Fc). rewrite <- H_time, E. ring. Qed.
+
+  Notation ScS := (Sc (vo := StOps) Lst c0st).
+  Notation TnS := (Tn (vo := StOps) Lst tau).
+
+  (** the change of scale of the state space agrees on the index range with [scale_state] *)
+  Lemma ScS_agrees (u : @State F) : agree (cK c) (hR g) (hL g) (ScS u) (Sst u).
+  Proof.
+    split.
+    - intros k a l Hk Ha Hl. unfold Sc. cbn [vadd StOps Lst c0st mk4 s_vort s_div s_temp scale_state].
+      unfold cl3, zero3. rewrite (inr3_true k a l Hk Ha Hl). repeat split; ring.
+    - intros a l Ha Hl. unfold Sc. cbn [vadd StOps Lst c0st mk4 s_lnps scale_state].
+      unfold cl2. rewrite (inr2_true a l Ha Hl). ring.
+  Qed.
+
+  (** the executable model as operators on the state space *)
+  Variables invt invt' : F -> nat -> @Mat F.
+  Definition FxS (u : @State F) : @State F := norm (explicit_terms_full g c grav orog u).
+  Definition FxS' (u : @State F) : @State F := norm (explicit_terms_full g' c' grav' orog' u).
+  Definition GS (u : @State F) : @State F := norm (implicit_terms_full g c u).
+  Definition GS' (u : @State F) : @State F := norm (implicit_terms_full g' c' u).
+  Definition GinvS (u : @State F) (eta : F) : @State F := norm (implicit_inverse_full g c eta (invt eta) u).
+  Definition GinvS' (u : @State F) (eta : F) : @State F := norm (implicit_inverse_full g' c' eta (invt' eta) u).
+  (** np.linalg.inv worked for step size [eta] under the first and [tau * eta] under the second scale *)
+  Definition okS (eta : F) : Prop :=
+    forall l, (l < hL g)%nat ->
+      is_left_inverse nn (implicit_matrix c eta (Deriv.lap_eig (hL g) (hr g) l)) (invt eta l) /\
+      is_left_inverse nn (invt' (tau * eta) l) (implicit_matrix c' (tau * eta) (Deriv.lap_eig (hL g') (hr g') l)).
+
+  Lemma st_HF u : FxS' (ScS u) = TnS (FxS u).
+  Proof.
+    unfold FxS', FxS, Tn, norm. cbn [vscal StOps].
+    apply mk4_ext; [intros k a l H | intros k a l H | intros k a l H | intros a l H].
+    1-3: destruct (inr3_elim k a l H) as (Hk & Ha & Hl);
+      destruct (explicit_terms_full_ext g' c' grav' orog' (ScS u) (Sst u) k a l (ScS_agrees u) Hk Ha Hl) as (X1 & X2 & X3 & X4);
+      destruct (whole_state_HF_HG u k a l Hk Ha Hl) as ((A1 & A2 & A3 & A4) & _);
+      cbv zeta in *; cbn [Lst mk4 s_vort s_div s_temp]; unfold cl3; rewrite H.
+    - rewrite X1. exact A1.
+    - rewrite X2. exact A2.
+    - rewrite X3. exact A3.
+    - destruct (inr2_elim a l H) as (Ha & Hl).
+      assert (Hk : (0 < cK c)%nat \/ cK c = 0%nat) by lia.
+      cbn [Lst mk4 s_lnps]. unfold cl2. rewrite H.
+      unfold explicit_terms_full, explicit_terms_of_diag. cbv zeta. cbn [s_lnps].
+      rewrite !sh_memo2_ok by assumption.
+      rewrite !lnps_explicit_is_assembly by assumption.
+      rewrite (diag_ext g' (cK c) (ScS u) (Sst u) (ScS_agrees u)).
+      assert (EX : X_of g' (diagnostic_state g' (cK c) (Sst u))
+                   = fun p => scale_ncol ku kr kT kg (X_of g (diagnostic_state g (cK c) u) p))
+        by (apply functional_extensionality; intro p; apply diag_covariant).
+      cbn [scale_cfg cK]. rewrite EX. unfold lnps_tendency_explicit_c.
+      change (toM_c g') with (toM_c g). change (clip_c g') with (clip_c g).
+      rewrite inv_tau_kr.
+      apply (lin_scal (clip_c g) (clip_c_lin g)). intros w.
+      apply (lin_scal (toM_c g) (toM_c_lin g)). intros p.
+      exact (log_pressure_tendency_homogeneous ku kr kT kg kR H_rate c _).
+  Qed.
+
+  Lemma st_HG u : GS' (ScS u) = TnS (GS u).
+  Proof.
+    unfold GS', GS, Tn, norm. cbn [vscal StOps]. rewrite inv_tau_kr.
+    apply mk4_ext; [intros k a l H | intros k a l H | intros k a l H | intros a l H].
+    1-3: destruct (inr3_elim k a l H) as (Hk & Ha & Hl);
+      destruct (implicit_terms_full_ext g' c' (ScS u) (Sst u) a l (ScS_agrees u) Ha Hl) as (X2 & X3 & X4);
+      destruct (whole_state_implicit_covariant u k a l) as (A1 & A2 & A3 & A4);
+      cbv zeta in *; cbn [Lst mk4 s_vort s_div s_temp]; unfold cl3; rewrite H.
+    - cbn [implicit_terms_full s_vort]. unfold zero3. ring.
+    - cbn [col_of c_div] in X2. rewrite (X2 k Hk), A2. ring.
+    - cbn [col_of c_temp] in X3. rewrite (X3 k Hk), A3. ring.
+    - destruct (inr2_elim a l H) as (Ha & Hl).
+      destruct (implicit_terms_full_ext g' c' (ScS u) (Sst u) a l (ScS_agrees u) Ha Hl) as (_ & _ & X4).
+      destruct (whole_state_implicit_covariant u 0 a l) as (_ & _ & _ & A4).
+      cbv zeta in *. cbn [Lst mk4 s_lnps]. unfold cl2. rewrite H.
+      cbn [col_of c_lnps] in X4. rewrite X4, A4. ring.
+  Qed.
+
+  Lemma st_HGinv u eta : okS eta -> GinvS' (ScS u) (tau * eta) = ScS (GinvS u eta).
+  Proof.
+    intros Hok. unfold GinvS', GinvS, norm. set (Su := ScS u). unfold Sc. cbn [vadd StOps].
+    apply mk4_ext; [intros k a l H | intros k a l H | intros k a l H | intros a l H].
+    1-3: destruct (inr3_elim k a l H) as (Hk & Ha & Hl); destruct (Hok l Hl) as [Hr Hli];
+      destruct (implicit_inverse_full_ext g' c' (tau * eta) (invt' (tau * eta)) Su (Sst u) a l (ScS_agrees u) Ha Hl) as (X2 & X3 & X4);
+      destruct (whole_state_inverse_covariant eta (invt eta) (invt' (tau * eta)) u k a l Hr Hli) as ((B2 & B3 & B4) & B1);
+      cbv zeta in *; cbn [Lst c0st mk4 s_vort s_div s_temp]; unfold cl3, zero3; rewrite ?H.
+    - cbn [implicit_inverse_full s_vort]. subst Su. destruct (ScS_agrees u) as [A _]. rewrite (proj1 (A k a l Hk Ha Hl)).
+      cbn [scale_state s_vort]. ring.
+    - cbn [col_of c_div] in X2, B2. rewrite (X2 k Hk), (B2 k Hk). cbn [scale_state s_div]. ring.
+    - cbn [col_of c_temp] in X3, B3. rewrite (X3 k Hk), (B3 k Hk). cbn [scale_state s_temp]. ring.
+    - destruct (inr2_elim a l H) as (Ha & Hl). destruct (Hok l Hl) as [Hr Hli].
+      destruct (implicit_inverse_full_ext g' c' (tau * eta) (invt' (tau * eta)) Su (Sst u) a l (ScS_agrees u) Ha Hl) as (_ & _ & X4).
+      destruct (whole_state_inverse_covariant eta (invt eta) (invt' (tau * eta)) u 0 a l Hr Hli) as ((_ & _ & B4) & _).
+      cbv zeta in *. cbn [Lst c0st mk4 s_lnps]. unfold cl2. rewrite ?H.
+      cbn [col_of c_lnps] in X4, B4. rewrite X4, B4. cbn [scale_state s_lnps]. ring.
+  Qed.
+
+  (** *** (8) every integrator of Model/Integrators.v on the whole-state model commutes with the change of scale *)
+  Theorem whole_state_step_covariant dt alpha al be ga a_ex a_im b_ex b_im u p q :
+    (okS dt -> euler_step (vo := StOps) FxS' GinvS' (tau * dt) (ScS u) = ScS (euler_step (vo := StOps) FxS GinvS dt u)) /\
+    (okS (half * dt) ->
+       cn_rk2_step (vo := StOps) FxS' GS' GinvS' (tau * dt) (ScS u) = ScS (cn_rk2_step (vo := StOps) FxS GS GinvS dt u)) /\
+    (ls_ok okS dt al ->
+       ls_step (vo := StOps) FxS' GS' GinvS' (tau * dt) al be ga (ScS u) = ScS (ls_step (vo := StOps) FxS GS GinvS dt al be ga u)) /\
+    (imex_ok okS dt 1 a_im ->
+       imex_step (vo := StOps) FxS' GS' GinvS' (tau * dt) a_ex a_im b_ex b_im (ScS u)
+       = option_map ScS (imex_step (vo := StOps) FxS GS GinvS dt a_ex a_im b_ex b_im u)) /\
+    (okS (two * dt * alpha) ->
+       leapfrog_step (vo := StOps) FxS' GS' GinvS' (tau * dt) alpha (ScS p, ScS q)
+       = (ScS (fst (leapfrog_step (vo := StOps) FxS GS GinvS dt alpha (p, q))),
+          ScS (snd (leapfrog_step (vo := StOps) FxS GS GinvS dt alpha (p, q))))).
+  Proof.
+    split; [|split; [|split; [|split]]]; intros Hok.
+    - exact (euler_step_covariant st_vadd_assoc st_vadd_comm st_vscal_mul Lst c0st tau Lst_add Lst_scal tau_nz_st
+               FxS GinvS FxS' GinvS' st_HF okS st_HGinv dt u Hok).
+    - exact (cn_rk2_step_covariant st_vadd_assoc st_vadd_comm st_vscal_add st_vscal_mul Lst c0st tau Lst_add Lst_scal tau_nz_st
+               FxS GS GinvS FxS' GS' GinvS' st_HF st_HG okS st_HGinv dt u Hok).
+    - exact (ls_step_covariant st_vadd_assoc st_vadd_comm st_vscal_add st_vscal_mul st_vscal_zero Lst c0st tau Lst_add Lst_scal Lst_zero
+               tau_nz_st FxS GS GinvS FxS' GS' GinvS' st_HF st_HG okS st_HGinv dt al be ga u Hok).
+    - exact (imex_step_covariant st_vadd_assoc st_vadd_comm st_vscal_add st_vscal_mul st_vscal_zero Lst c0st tau Lst_add Lst_scal Lst_zero
+               tau_nz_st FxS GS GinvS FxS' GS' GinvS' st_HF st_HG okS st_HGinv dt a_ex a_im b_ex b_im u Hok).
+    - exact (leapfrog_covariant st_vadd_assoc st_vadd_comm st_vscal_add st_vscal_mul Lst c0st tau Lst_add Lst_scal tau_nz_st
+               FxS GS GinvS FxS' GS' GinvS' st_HF st_HG okS st_HGinv dt alpha p q Hok).
+  Qed.
+
+  (** any number of (filtered) steps *)
+  Theorem whole_state_trajectory_covariant (step step' : @State F -> @State F) (fl fl' : list (@State F -> @State F -> @State F)) :
+    (forall u, step' (ScS u) = ScS (step u)) ->
+    Forall2 (fun f' f => forall u w, f' (ScS u) (ScS w) = ScS (f u w)) fl' fl ->
+    forall n u, Nat.iter n (step_with_filters step' fl') (ScS u) = ScS (Nat.iter n (step_with_filters step fl) u).
+  Proof. exact (trajectory_covariant (vo := StOps) Lst c0st step step' fl fl'). Qed.
 End WholeState.
